@@ -252,14 +252,14 @@ def gen_c08(rng, plat=None):
 # senders only use detached puts (no second delivery possible) uses the real get<T>().
 def qpipeline(rng, family="queue-pipeline"):
     """producers -> consumers on 1..3 queues, as many gets as puts per queue.
-    queue-detached: detached puts only, real get<T>(); queue-timeouts: the real get<T>(timeout) and wait_for() that keeps the handle
-    (run in batches of their own: while the known findings about timeouts are open they write into dead stack frames)"""
+    queue-detached: detached puts only, real get<T>(); queue-timeouts: the same plus the real get<T>(timeout) and wait_for() that keeps
+    the handle (run in batches of their own: while the known findings about timeouts are open they write into dead stack frames)"""
     na, prod, cons = _roles(rng)
     nq = rng.randint(1, 3)
     scripts = [[] for _ in range(na)]
     per_q = [0] * nq
-    detached = family == "queue-detached"
     tmo = family == "queue-timeouts"
+    detached = family == "queue-detached" or tmo     # no put handle: the payload cannot be delivered a second time
     cancel = timeouts = rng.random() < 0.3
     pk = ["qputd"] if detached else ["qput", "qputa", "qputa", "qputa", "qputd"]
     gk = ["qget", "qget", "qgeta", "qgeta", "qgetp"] if detached else ["qgets", "qgets", "qgeta", "qgeta", "qgetp"]
